@@ -170,9 +170,9 @@ func alphabet(topics []string, values []int) []op {
 }
 
 var smallTopics = []string{"a", "a/b", "a/+", "a/#", "#", "b"}
-var smallQueries = []string{"a", "a/b", "a/+", "a/#", "#", "b", "a/c", "+"}
+var smallQueries = []string{"a", "a/b", "a/+", "a/#", "#", "b", "a/c", "+", "a/$b", "$b"} // '$' is an ordinary byte for topic.Tree at every level (seed C05-10)
 var bigTopics = []string{"a", "a/b", "a/b/c", "a/+", "a/+/c", "a/#", "#", "b", "+", "+/b", "", "/", "a/", "/a", "a//b", "é/日本"}
-var bigQueries = append(append([]string{}, bigTopics...), "a/c", "+/+", "/#", "b/#", "a/b/#", "c")
+var bigQueries = append(append([]string{}, bigTopics...), "a/c", "+/+", "/#", "b/#", "a/b/#", "c", "a/$SYS", "$SYS/b", "a/$/c", "$")
 
 func c05Exhaustive(c *hx.Ctx, r *runner, depth int) {
 	al := alphabet(smallTopics, []int{1, 2})
